@@ -176,6 +176,7 @@ func (t toolsim) runCompact(c *Case, dir string, out *Outcome) {
 	}
 	sort.Slice(limits, func(i, j int) bool { return limits[i] < limits[j] })
 	for li, lim := range limits {
+		Tick()
 		if len(out.Viol) > 0 {
 			break
 		}
@@ -427,6 +428,7 @@ func (t toolsim) runOpt(c *Case, dir string, out *Outcome) {
 	}
 	var hashes []uint64
 	for si, sched := range ex.Schedules {
+		Tick()
 		os.Remove(path)
 		cfg := c.Prog.Cfg
 		if si < len(ex.PageSizes) {
